@@ -194,6 +194,11 @@ def t_rows(cpu, fam, kw, shard, nshards):
 
 # ---------------------------------------------------------------------------------------------- (B)
 
+def exact_f32(A, B):
+	import struct
+	return struct.unpack('<f', struct.pack('<I', R.ref_jaccard_f32(list(A), list(B))))[0]
+
+
 def db_spec():
 	"""9 reference genomes over a 5-k-mer universe {0..4} (k=4 -> uint8 would be refused by the metric; use k=5 -> u2)."""
 	taxa = [dict(name='G', parent=None, thr=0.8, rank='genus'), dict(name='S1', parent=0, thr=0.4, rank='species'), dict(name='S2', parent=0, thr=0.4, rank='species')]
@@ -239,7 +244,7 @@ def t_db(threads):
 				for m, item in enumerate(res.items):
 					sh.evals += 1
 					case = dict(query=qsets[m], threads=threads, chunksize=chunksize, N=N)
-					row = [float(jaccarddist(qarrs[m], r)) for r in refarrs]
+					row = [exact_f32(qsets[m], sigs[i]) for i in ref_order]        # exact model, not the library's distance function
 					exp = R.ref_closest(row, N)
 					got = [ref_order.index(int(x.genome.key[1:])) for x in item.closest_genomes]
 					if got != exp or [float(x.distance) for x in item.closest_genomes] != [row[i] for i in exp]:
